@@ -203,6 +203,37 @@ def run_restest(ctx, n, d):
         shutil.rmtree(t, ignore_errors=True)
 
 
+def run_restest_big(ctx, d):
+    """A reference tree of ~3 MB whose final tree differs in ONE byte: the error rate is below 5e-5 %, still not 0: `pff restest`
+    must not report 0 / exit 0.  Property predicate only (the byte lists are too long for the line protocol of the model)."""
+    import hashlib
+    import pyFileFixity.resiliency_tester as rt
+    blob = b''.join(hashlib.sha256(b'c20big%d' % i).digest() for i in range(100000))      # 3.2 MB, deterministic
+    ref = {'big.bin': blob, 'small.txt': b'hello'}
+    fin = dict(ref, **{'big.bin': blob[:1234567] + bytes([blob[1234567] ^ 1]) + blob[1234568:]})
+    t = os.path.join(d, 'rtbig'); os.makedirs(t)
+    orig = os.path.join(t, 'orig'); fdir = os.path.join(t, 'fin'); os.makedirs(orig); os.makedirs(fdir)
+    write_tree(orig, ref); write_tree(fdir, fin)
+    open(os.path.join(t, 'tamper.sh'), 'w').write('for f in $(find "$1" -type f); do printf Q >> "$f"; done\n')
+    open(os.path.join(t, 'repair.sh'), 'w').write('cp -r "%s"/. "$2"/\n' % fdir)
+    open(os.path.join(t, 'cfg'), 'w').write(RESTEST_CFG.format(t=t))
+    buf = io.StringIO()
+    try:
+        with contextlib.redirect_stdout(buf), contextlib.redirect_stderr(buf):
+            rc = rt.main(['-i', orig, '-o', os.path.join(t, 'out'), '-c', os.path.join(t, 'cfg'), '--silent', '-f'])
+    except BaseException as e:
+        rc = 'EXC ' + repr(e)
+    shutil.rmtree(t, ignore_errors=True)
+    ctx.evaluations += 1
+    ctx.count('restest_big_case')
+    ctx.nontriv('restest-big')
+    case = {'kind': 'restest-big', 'note': '3.2 MB reference, one byte of the final tree differs'}
+    if rc == 0:
+        ctx.fail(case, {'exit': rc, 'final_tree_identical': False, 'differing_bytes': 1, 'reference_bytes': len(blob) + 5})
+    else:
+        ctx.traces += 1
+
+
 def restest_multi_once(ctx, t, ref, bad, m, bad_runs):
     """restest -m <m> with a repair stub that yields the tree `bad` in the runs listed in bad_runs and the original otherwise.
     Returns (exit status, averaged final error as printed, per-run model errors)."""
@@ -306,6 +337,7 @@ def run(ctx):
         run_trees(ctx, tcases, d)
         run_restest(ctx, 12 if ctx.tier == 'quick' else 150, d)
         run_restest_multi(ctx, 8 if ctx.tier == 'quick' else 80, d)
+        run_restest_big(ctx, d)
     finally:
         shutil.rmtree(d, ignore_errors=True)
 
@@ -345,6 +377,11 @@ def replay_case(ctx, case):
                 got = ('EXC', repr(e))
             want = tree_expect(ref, other)
             return {'holds': got == want, 'implementation': got, 'property_expects': want}
+        if case['kind'] == 'restest-big':
+            sub = type('X', (), {'evaluations': 0, 'traces': 0, 'fails': [], 'count': lambda self, *a: None, 'nontriv': lambda self, *a: None,
+                                 'fail': lambda self, c, det: self.fails.append(det)})()
+            run_restest_big(sub, d)
+            return {'holds': not sub.fails, 'implementation': sub.fails[:1]}
         if case['kind'] == 'restest-multi':
             ref = {k: bytes.fromhex(v) for k, v in case['ref'].items()}
             bad = {k: bytes.fromhex(v) for k, v in case['bad'].items()}
